@@ -29,7 +29,7 @@ RULE = (
 STATE_MEASURE = "(attach-frame class, sequence of target frame classes {inertial, rotating, local}, fault sites)"
 PROBES = [
     "cov_visited_rotating_frame", "local_after_rotating", "drag_cov_with_state", "back_to_attach_frame", "fault_fired_natural",
-    "fault_fired_injected", "atomic_failure_checked", "pickled_then_converted", "cache_dropped", "copy_joined_heap", "attached_in_local_frame", "drag_then_local", "twin_object", "reattached_to_other_state", "cov_built_from_cov", "class_changed_then_converted", "reattached_to_a_state_given_in_another_frame", "frame_registered_under_a_local_name",
+    "fault_fired_injected", "atomic_failure_checked", "pickled_then_converted", "cache_dropped", "copy_joined_heap", "attached_in_local_frame", "drag_then_local", "twin_object", "reattached_to_other_state", "cov_built_from_cov", "class_changed_then_converted", "reattached_to_a_state_given_in_another_frame", "frame_registered_under_a_local_name", "covariance_kept_apart_from_its_state",
 ]
 REAL_VS_STUB = "real: Cov, StateVector/Orbit, frames/orientations (iau1980/iau2010 with zero or real IERS EOP from the simulated disk), to_local, pickle; stub: none (injected faults are raising wrappers in the node's private package copy); model: own QSW/TNW axes from (r0, v0) in F0, R C R^T with R from a pristine node's single-hop orientation matrix"
 ASSUMPTIONS = [
@@ -118,6 +118,8 @@ def gen_plan(rng, tier, i):
     real_eop = rng.random() < 0.35
     import random
 
+    if random.Random("c14-iso:" + repr(obj["cov_seed"])).random() < 0.1:
+        obj["cov_kind"] = "iso"
     if random.Random("c14-int:" + repr(obj["cov_seed"])).random() < 0.12:
         obj["cov_kind"] = random.Random("c14-intk:" + repr(obj["cov_seed"])).choice(["int_diag", "int_full"])
         if twin:
@@ -134,6 +136,9 @@ def gen_plan(rng, tier, i):
             # target that is certain to fail)
             if (o_.get("fail") or {}).get("what") == "hill":
                 o_["fail"] = dict(o_["fail"], what="unknown")
+    if child.random() < 0.12:
+        # a covariance built on a state but never attached to it: it keeps the state it was built on, whatever happens to that object
+        ops.insert(child.randint(0, len(ops)), {"op": "standalone", "obj": 0, "seed": child.randrange(1 << 30), "then": child.choice(["frame:ITRF", "frame:MOD", "form:keplerian", "form:spherical"]), "to": child.choice(LOCAL)})
     for o_ in ops:
         if o_["op"] == "reattach" and child.random() < 0.6:
             o_["owner_frame"] = child.choice(INERTIAL)
@@ -155,6 +160,10 @@ def psd(seed, kind):
         scale[3:] *= 1e-4
     if kind == "diag":
         return np.diag(scale**2)
+    if kind == "iso":
+        # exactly isotropic position and velocity blocks (a matrix typed in by hand: sigma_r, sigma_v)
+        a_, b_ = float(rs.randint(1, 200)) ** 2, float(rs.randint(1, 50)) ** 2 * 1e-4
+        return np.diag([a_, a_, a_, b_, b_, b_])
     if kind in ("int_diag", "int_full"):
         # whole numbers held in an integer array (a matrix typed in by hand, read from a table of integers): the same matrix
         if kind == "int_diag":
@@ -687,6 +696,33 @@ class World:
             ctx.violate("pure-conversion", {"kind": "receiver_changed_by_cov_constructor"}, f"{where}: Cov(other, cov, None) modified the covariance it copies")
         if np.shares_memory(np.asarray(sv2.cov), np.asarray(o.cov)):
             ctx.violate("pure-conversion", {"kind": "cov_copy_shares_memory", "via": "constructor"}, f"{where}: the covariance built from another one shares its buffer with it")
+
+    def op_standalone(self, j, o, m, op, T, fail, before, where):
+        """Cov(state, C, frame) kept apart from the state (not assigned to it); the state object is then converted in place; the
+        covariance converted to QSW / TNW refers to the position and velocity it was built on."""
+        ctx = self.ctx
+        n = self.node
+        date = world.mk_date(n, m.date[:2], m.date[2])
+        s_ = n.StateVector(self.plan["knobs"]["kep_b"], date, "keplerian", m.F0)
+        s_.form = "cartesian"
+        rv = np.array(s_, dtype=float)
+        C = psd(op["seed"], "full")
+        try:
+            c = n.Cov(s_, C.copy(), m.F0)
+            what, val = op["then"].split(":")
+            setattr(s_, what, val)
+            c.frame = op["to"]
+            got = np.array(c, dtype=float)
+        except Exception as e:  # noqa
+            ctx.violate("pure-rotation", {"kind": "unexpected_exception", "op": "standalone", "target": "local"}, f"{where}: a covariance built apart from its state, converted to {op['to']} after the state was converted in place, raised {type(e).__name__}: {e}")
+            return
+        L = bd(local_axes(op["to"], rv[:3], rv[3:]))
+        want = L @ C @ L.T
+        err = block_err(got, want, False)
+        ctx.checks += 1
+        ctx.probe("covariance_kept_apart_from_its_state")
+        if err > TOLERANCES["model_rel"]:
+            ctx.violate("path-independence", {"kind": "standalone_cov_differs_from_model", "target": "local"}, f"{where}: a covariance built on a state (not assigned to it), converted to {op['to']} after the state object was changed in place ({op['then']}), differs from R C R^T built on the state it was created with (relative {err:.3e})")
 
     def op_namesake(self, j, o, m, op, T, fail, before, where):
         """Another satellite registers its local orbital frame under the plain name "QSW" / "TNW"."""
